@@ -32,8 +32,9 @@ def run(ctx):
     kinds = ["options", "device", "mesh", "solution"]
     ctx.cov["bounds"] = {"Persist": dict(option_fields=len(ps.OPT_NAMES), values_per_field="default / non-default (/ complex / None for terminal_psi; None is output_file's default)",
                                          max_deviating_fields=maxdev, multi_field_records_without_a_None_able_field_sampled_1_in=pairmod,
-                                         device_shapes="holes 0..2 x terminals {0,2,3} x probe points {0,2,3} x conductivity x mesh x save_mesh",
-                                         mesh_modes=["full", "compressed"], solution_modes=["copy", "inplace", "deleted", "nofile (output_file=None)", "solved (the file tdgl.solve wrote)"],
+                                         device_shapes="holes 0..2 x terminals {0,2,3} x probe points {0,2,3} x conductivity x mesh x save_mesh x pre-save history "
+                                                       "{none, translate(inplace), inside translation(), rotate+remesh, scale+remesh}",
+                                         mesh_modes="{full, compressed} x the same pre-save histories", solution_modes=["copy", "inplace", "deleted", "nofile (output_file=None)", "solved (the file tdgl.solve wrote)"],
                                          histories="save X; load; remove; save Y (same shapes, other content) under the same path; load - one process",
                                          parameter_sessions=["same process", "fresh process without the defining names", "process with the names rebound"], recorded_steps="1..4", solution_probe_points=[False, True], solution_screening=[False, True]),
                          "ParamAlg": dict(operator_levels=2, level2_sampled_1_in=401 if quick else 23),
@@ -67,6 +68,12 @@ def run(ctx):
               ps.model_cfg(small, 1, 1, 0, dict(ps.MECH, MRestoreDual=False), ["MeshRestoredEqualsRecomputed"]), "MeshRestoredEqualsRecomputed"),
              ("Persist[mutant: dynamics of a solution without a file written only with probe points, LoadSaveIdentity]",
               ps.model_cfg(["solution"], 1, 1, 0, dict(ps.MECH, MDynAlways=False), ["LoadSaveIdentity"]), "LoadSaveIdentity"),
+             ("Persist[mutant: in-place translation leaves the Voronoi polygons behind, SavedMeshIsMeshOfItsTriangulation]",
+              ps.model_cfg(["device", "mesh"], 1, 1, 0, dict(ps.MECH, MTransformRebuilds=False), ["SavedMeshIsMeshOfItsTriangulation"]),
+              "SavedMeshIsMeshOfItsTriangulation"),
+             ("Persist[mutant: in-place translation leaves the Voronoi polygons behind, MeshRestoredEqualsRecomputed]",
+              ps.model_cfg(["device", "mesh"], 1, 1, 0, dict(ps.MECH, MTransformRebuilds=False), ["MeshRestoredEqualsRecomputed"]),
+              "MeshRestoredEqualsRecomputed"),
              ("Persist[mutant: reader memoises what it loaded by path, LoadSaveIdentity]",
               ps.model_cfg(["device", "mesh", "solution"], 1, 1, 0, dict(ps.MECH, MMemoByPath=True), ["LoadSaveIdentity"]), "LoadSaveIdentity"),
              ("Persist[mutant: polygon points not stored as held, FileHoldsContent]",
@@ -92,7 +99,7 @@ def run(ctx):
     if quick:
         rnd.shuffle(dshapes)
         # quick: a seeded third of the shapes, always including the extremes
-        ext = [s for s in dshapes if (s["holes"], s["terms"], s["probes"]) in ((0, 0, 0), (2, 3, 3))]
+        ext = [s for s in dshapes if (s["holes"], s["terms"], s["probes"]) in ((0, 0, 0), (2, 3, 3)) and (s["cond"] or s["pre"] == "none")]
         dshapes = ext + [s for s in dshapes if s not in ext][:60]
     # history (save X, load, remove, save Y under the SAME path, load - in one process): every shape that stores a mesh,
     # and a third of the others
@@ -105,7 +112,7 @@ def run(ctx):
         for s in by_kind["mesh"]:
             mcases.append(dict(shape=s, dev=dev, mel=mel, smooth=smooth, history=True))
     jobs += [("call", dict(module="harness.persist", func="mesh_case", args=a)) for a in mcases]
-    scases = [dict(shape=s, dev="barhole" if n % 2 == 0 else "film", history=s["mode"] != "inplace" and (not quick or n % 2 == 0 or s["mode"] == "solved"))
+    scases = [dict(shape=s, dev="barhole" if n % 2 == 0 else "film", pre=["none", "translate", "context", "none", "rotate", "none"][n % 6], history=s["mode"] != "inplace" and (not quick or n % 2 == 0 or s["mode"] == "solved"))
               for n, s in enumerate(by_kind["solution"])]
     jobs += [("call", dict(module="harness.persist", func="solution_case", args=a)) for a in scases]
     pwork = []
@@ -171,6 +178,15 @@ def run(ctx):
         bad = copy.deepcopy(norm[acc_by_kind["mesh"][0]])
         bad["ev"][-1]["rec"]["dual_sites"] = 0
         reject(bad, "loaded mesh lacks dual_sites")
+        cands = [n for n in acc_by_kind["mesh"] if norm[n]["shape"]["pre"] in ("translate", "context") and not norm[n]["shape"]["compress"]]
+        if cands:
+            # Voronoi polygons that stayed behind: held, stored and restored consistently - and not those of the triangulation
+            bad = copy.deepcopy(norm[cands[0]])
+            for e in bad["ev"][:3]:
+                (e["saved"] if e["ev"] == "made" else e["rec"])["voronoi_polygons"] = 9999
+            reject(bad, "translated mesh keeps stale Voronoi polygons through the round trip")
+        elif not ctx.violations:
+            raise core.MachineryFailure("C14: no accepted round trip of a mesh translated in place")
     if acc_by_kind["device"]:
         bad = copy.deepcopy(norm[acc_by_kind["device"][-1]])
         bad["ev"][-1]["rec"]["layer"]["gamma"] += 50
